@@ -60,6 +60,9 @@ type TPS struct {
 }
 
 func (tps *TPS) SetShareData(shareData []byte) error {
+	tps.lock.Lock()
+	defer tps.lock.Unlock()
+
 	tps.storedData = &StoredData{}
 	if _, err := asn1.Unmarshal(shareData, tps.storedData); err != nil {
 		return fmt.Errorf("share data is malformed: %v", err)
